@@ -123,13 +123,54 @@ print(json.dumps(seen))
     return json.loads(p.stdout.strip().splitlines()[-1]), None
 
 
+
+def _interpolates_unescaped_data(call_text):
+    """the first argument of an re.* call is a string built (%, +, format, f-string, join) from a non-constant operand that is not the
+    result of re.escape(...)"""
+    import ast
+    try:
+        call = ast.parse(call_text, mode="eval").body
+    except SyntaxError:
+        return False
+    if not isinstance(call, ast.Call) or not call.args:
+        return False
+    pat = call.args[0]
+
+    def data_operands(e):
+        if isinstance(e, ast.Constant):
+            return []
+        if isinstance(e, ast.Call) and ast.unparse(e.func) == "re.escape":
+            return []
+        if isinstance(e, ast.BinOp) and isinstance(e.op, (ast.Mod, ast.Add)):
+            return data_operands(e.left) + data_operands(e.right)
+        if isinstance(e, (ast.Tuple, ast.List)):
+            return [x for el in e.elts for x in data_operands(el)]
+        if isinstance(e, ast.JoinedStr):
+            return [x for v in e.values if isinstance(v, ast.FormattedValue) for x in data_operands(v.value)]
+        if isinstance(e, ast.Call) and isinstance(e.func, ast.Attribute) and e.func.attr in ("format", "join"):
+            return data_operands(e.func.value) + [x for a in e.args for x in data_operands(a)] + [x for k in e.keywords for x in data_operands(k.value)]
+        if isinstance(e, (ast.Name, ast.Attribute, ast.Subscript, ast.Call)):
+            return [e]
+        return [e]
+    built = isinstance(pat, (ast.BinOp, ast.JoinedStr)) or (isinstance(pat, ast.Call) and isinstance(pat.func, ast.Attribute) and
+                                                            pat.func.attr in ("format", "join"))
+    return built and bool(data_operands(pat))
+
+
 def check(run):
     c = ctx(run)
     std(run)
     inv, unresolved = c.src.regex_inventory()
     dyn, err = dynamic_inventory(run.repo, run.tier == "thorough")
     with run.obligation("re.inventory#complete", "conc", ["productmd.* (every re.compile/match/split and _assert_matches_re site)"]) as ob:
-        if unresolved:
+        data_built = [(w, t) for w, t in unresolved if _interpolates_unescaped_data(t)]
+        if data_built:
+            # a pattern assembled from a run-time value that is not passed through re.escape(): whoever controls that value (a field
+            # of the document being loaded, an argument) chooses the expression the matcher runs -- its cost has no bound at all
+            w, t = data_built[0]
+            ob.refuted("%s builds a regular expression from run-time data without re.escape(): %s -- the cost of matching is then whatever "
+                       "expression the data spells (e.g. '(x+x+)+y'), no polynomial bounds it" % (w, t), clause="inventory", replay_script=None)
+        elif unresolved:
             ob.undecided("pattern expressions not statically resolvable: %r" % (unresolved[:3],))
         elif dyn is None:
             ob.undecided("dynamic inventory failed: %s" % err)
